@@ -11,7 +11,7 @@ THEOREMS = ["Hyp.Persist." + t for t in (
     "c09_refinement", "c09_commit_reopen", "c09_abort_restores", "c09_rollback_restores", "c09_evict_invisible",
     "c09_undisciplined_lost", "c09_undisciplined_survives_abort", "c09_hypatia_blocks_disciplined",
     "c09_blocks_compose")]
-CASES = {"quick": 130, "thorough": 5000}
+CASES = {"quick": 400, "thorough": 5000}
 BUDGET_S = {"quick": 45, "thorough": 780}
 BATCH = 10
 RULE = ("histories of 4-30 catalog operations (index/reindex/unindex/reset on a catalog with field, keyword, "
@@ -65,7 +65,7 @@ class Doc(object):
 ALL = ("i0", "i1", "i2", "i3", "i4")
 
 
-def make_catalog(cutoff=2, present=ALL):
+def make_catalog(cutoff=2, present=ALL, thr=2):
     from hypatia.catalog import Catalog
     from hypatia.field import FieldIndex
     from hypatia.keyword import KeywordIndex
@@ -78,7 +78,7 @@ def make_catalog(cutoff=2, present=ALL):
         cat["i0"] = FieldIndex(Disc("f", 0))
     if "i1" in present:
         kw = KeywordIndex(Disc("k", 1))
-        kw.tree_threshold = 2
+        kw.tree_threshold = thr
         cat["i1"] = kw
     if "i2" in present:
         cat["i2"] = FacetIndex(Disc("c", 2), FACETS)
@@ -148,17 +148,20 @@ def observe(cat, ids):
         if name == "i0":
             for q in (2, 5):
                 part.append("eq%d=%s" % (q, idset(ix.applyEq(q))))
+            part.append("eqs=" + "/".join(idset(ix.applyEq(v)) for v in range(8)))
             part.append("ge3=" + idset(ix.applyGe(3)))
             part.append("ne2=" + idset(ix.applyNotEq(2)))
         elif name == "i1":
             part.append("any=" + idset(ix.applyAny(["k0", "k3"])))
             part.append("all=" + idset(ix.applyAll(["k1", "k2"])))
             part.append("ne=" + idset(ix.applyNotEq("k1")))
+            part.append("eqs=" + "/".join(idset(ix.applyEq(k)) for k in KWS))
         elif name == "i2":
             part.append("eqa=" + idset(ix.applyEq("a")))
+            part.append("eqs=" + "/".join(idset(ix.applyEq(f)) for f in FACETS))
             part.append("counts=" + repr(sorted(ix.counts(list(ix.indexed())).items())))
         else:
-            for q in ("apple", "berry OR fig", '"cherry date"', "grape -apple", "haz*"):
+            for q in ("apple", "berry OR fig", '"cherry date"', "grape -apple", "haz*", "date", "elder", "iris OR jade"):
                 r = ix.apply(q)
                 part.append("%s=%s" % (q.replace(" ", "_"),
                                        " ".join("%d:%s" % (d, fmtscore(s)) for d, s in sorted(r.items()))))
